@@ -393,9 +393,27 @@ def is_const(n, value=...):
 
 
 # -------------------------------------------------------------------- temporaries
-def single_bindings(fnode):
+def single_bindings(fnode, phi=False):
     """locals of fnode bound by exactly one plain assignment `name = expr` (never augmented, never a loop / with / comprehension target,
-    not a parameter): name -> value expression.  These are temporaries: a use of the name means its value expression."""
+    not a parameter): name -> value expression.  These are temporaries: a use of the name means its value expression.
+    With phi=True a name bound exactly once in EACH arm of one if / else (the statement form of `name = a if c else b`) is included with the
+    conditional expression as its value."""
+    if phi:
+        out = single_bindings(fnode)
+        a = fnode.args
+        params = {x.arg for x in a.posonlyargs + a.args + a.kwonlyargs} | ({a.vararg.arg} if a.vararg else set()) | ({a.kwarg.arg} if a.kwarg else set())
+        stores = {}
+        for n in ast.walk(fnode):
+            if isinstance(n, ast.Name) and isinstance(n.ctx, (ast.Store, ast.Del)):
+                stores[n.id] = stores.get(n.id, 0) + 1
+        for n in body_walk(fnode):
+            if isinstance(n, ast.If) and len(n.body) == 1 and len(n.orelse) == 1 and all(isinstance(x, ast.Assign) and len(x.targets) == 1 and isinstance(x.targets[0], ast.Name)
+                                                                                     for x in (n.body[0], n.orelse[0])):
+                nm = n.body[0].targets[0].id
+                if nm == n.orelse[0].targets[0].id and stores.get(nm) == 2 and nm not in params and nm not in out:
+                    out[nm] = ast.copy_location(ast.IfExp(test=n.test, body=n.body[0].value, orelse=n.orelse[0].value), n)
+                    ast.fix_missing_locations(out[nm])
+        return out
     a = fnode.args
     params = {x.arg for x in a.posonlyargs + a.args + a.kwonlyargs} | ({a.vararg.arg} if a.vararg else set()) | ({a.kwarg.arg} if a.kwarg else set())
     count, value = {}, {}
